@@ -1,6 +1,108 @@
-import Netpoll.Buf.Spec
+import Netpoll.Buf.OwnerLemmas18
+/-!
+C03 – pool blocks are returned at most once; caller-owned memory never.
+
+Theorems over the ownership ledger model `Netpoll.Buf.Own` (every LinkBuffer method mirrored on blocks,
+node structs, reference counts, caches and live views; tied to nocopy_linkbuffer.go by the allocator-event
+and node-ledger correspondence of `./check C03`).  `run cfg {} ops` is the ledger after an arbitrary
+history `ops` over any number of buffers, Slice readers and appended buffers (a panic ends the history).
+-/
 namespace Netpoll.Props.C03
-open Netpoll.Buf
-/-- placeholder until the ledger model is merged: a fresh buffer holds no readable byte. -/
-theorem fresh_empty (cfg : Cfg) (n : Nat) : (newLB cfg n : LB Nat).length = 0 := rfl
+open Netpoll.Buf Netpoll.Buf.Own
+
+/-- **Every block is returned to the pool at most once** – for every history over any number of buffers, Slice
+readers and appended buffers, including Close with Slice readers outstanding.  No hypothesis: the WriteDirect
+split (D4) frees a block too early, but not twice (proved by counting ownership tokens: a block has at most one of
+{reusable node struct, `caches` entry, `cachePeek`}, and `free` uses the token up). -/
+theorem C03_free_once (cfg : Cfg) (ops : List Op) (k : Nat) (bl : Block)
+    (h : (run cfg {} ops).mem.blocks[k]? = some bl) : bl.frees ≤ 1 :=
+  (run_tok ops tok_init).frees_le k bl h
+
+/-- the same on the event log: `free k` occurs at most once -/
+example : ((run { linkBufferCap := 16 } {} [.new 1 30, .mal 1 40, .flush 1, .next 1 35, .peek 1 3, .rel 1, .close 1]).mem.blocks.map (·.frees)) = [1, 1] := by
+  decide
+
+/-- **Only pool blocks are returned to the pool, and never a block above `mallocMax`** – for every history:
+each `free` event of the ledger concerns a block that `mcache.Malloc` handed out (never caller memory, never
+a private copy, never GC memory).  No hypothesis (holds with the WriteDirect split, D4, too). -/
+theorem C03_free_only_pool (cfg : Cfg) (ops : List Op) (b cap : Nat)
+    (h : Ev.free b cap ∈ (run cfg {} ops).mem.log) :
+    cap ≤ cfg.mallocMax ∧ ∃ bl : Block, (run cfg {} ops).mem.blocks[b]? = some bl ∧ bl.kind = .pool :=
+  (run_typed (st := false) ops (typed_init cfg false) (fun h => by cases h)).core.log _ h
+
+example : Ev.free 0 32 ∈ (run { linkBufferCap := 16 } {} [.new 1 30, .close 1]).mem.log := by decide
+
+/-- **Caller memory is never returned to the pool and never written by netpoll** (the slices passed to
+WriteBinary / WriteString / WriteDirect are `caller` blocks of the ledger).
+`_partial`: holds for histories in which every `book` call is made on a buffer whose write node does not
+sit on caller memory (`BookOK`; contract clause 9: `book`/`bookAck` are used on the connection's input
+buffer only, never on a buffer written through the Writer API – a `book` after an in-place `WriteBinary`
+with spare capacity would let the kernel write into the caller's slice). -/
+theorem C03_caller_untouched_partial (cfg : Cfg) (ops : List Op) (hbook : AllSteps cfg BookOK {} ops)
+    (b : Nat) (bl : Block) (hb : (run cfg {} ops).mem.blocks[b]? = some bl) (hk : bl.kind = .caller) :
+    (∀ cap, Ev.free b cap ∉ (run cfg {} ops).mem.log) ∧ (∀ lo hi, Ev.write b lo hi ∉ (run cfg {} ops).mem.log) := by
+  have ht := run_typed (st := true) ops (typed_init cfg true) (fun _ => hbook)
+  refine ⟨fun cap hm => ?_, fun lo hi hm => ?_⟩
+  · obtain ⟨_, bl', h1, h2⟩ := ht.core.log _ hm
+    rw [hb] at h1; cases h1; rw [hk] at h2; cases h2
+  · obtain ⟨bl', h1, h2⟩ := ht.core.log _ hm rfl
+    rw [hb] at h1; cases h1; exact h2 hk
+
+example : AllSteps { linkBufferCap := 16 } BookOK {} [.new 1 30, .wbin 1 5000 6000, .flush 1, .next 1 10, .close 1] :=
+  AllSteps.of_forall _ _ (fun s op h => by
+    simp only [List.mem_cons, List.not_mem_nil, or_false] at h
+    rcases h with rfl | rfl | rfl | rfl | rfl <;> trivial)
+
+/-- the private copies returned by ReadBinary / ReadString / Read are GC memory of the ledger: never freed
+(they are written once, when the copy is made) -/
+theorem C03_private_copy_never_freed (cfg : Cfg) (ops : List Op) (b : Nat) (bl : Block)
+    (hb : (run cfg {} ops).mem.blocks[b]? = some bl) (hk : bl.kind = .gc) (cap : Nat) :
+    Ev.free b cap ∉ (run cfg {} ops).mem.log := by
+  intro hm
+  obtain ⟨_, bl', h1, h2⟩ := C03_free_only_pool cfg ops b cap hm
+  rw [hb] at h1; cases h1; rw [hk] at h2; cases h2
+
+/-- **A block is returned to the pool only after every reader sharing it has released it** (the structs chained in a buffer –
+the parent's own nodes and the child nodes of every Slice reader – are what still refers to a block): in every state
+of a covered history no chained struct lies on a block that has been handed to `free`; this includes Close of a parent
+while Slice readers are outstanding and the donor clean-up of Append.
+`_partial`: `Cov` excludes (1) `WriteDirect` with `remain > 0` (the split: known finding D4, witness below),
+(2) a `MallocAck` that would reset a reference count different from 1 (never inside the contract: the structs behind
+the flush node hold pending data only), and asks for (3) fresh ids for new buffers / Slice readers, `Append` of another buffer. -/
+theorem C03_free_after_release_partial (cfg : Cfg) (ops : List Op) (hc : AllSteps cfg Cov {} ops)
+    (id i k : Nat) (b : Buf) (nd : NodeS) (bl : Block)
+    (hb : (id, b) ∈ (run cfg {} ops).bufs) (hi : i ∈ b.chain) (hn : (run cfg {} ops).mem.nodes[i]? = some nd)
+    (hk : nd.block = some k) (hbl : (run cfg {} ops).mem.blocks[k]? = some bl) : bl.frees = 0 :=
+  (run_good ops hc).chained_unfreed hb hi hn hk hbl
+
+/-- the same in terms of the executable oracle (what `npdriver own` prints as `freed-block-in-chain`) -/
+theorem C03_free_after_release_oracle_partial (cfg : Cfg) (ops : List Op) (hc : AllSteps cfg Cov {} ops) (k : Nat) (bl : Block)
+    (hbl : (run cfg {} ops).mem.blocks[k]? = some bl) (hf : bl.frees ≠ 0) : (run cfg {} ops).chainedOn k = [] :=
+  (run_good ops hc).chainedOn_nil hbl hf
+
+/-- **Every node struct goes back to `linkedPool` at most once** (under the same `Cov`). -/
+theorem C03_node_recycled_once_partial (cfg : Cfg) (ops : List Op) (hc : AllSteps cfg Cov {} ops) (i : Nat) (nd : NodeS)
+    (hn : (run cfg {} ops).mem.nodes[i]? = some nd) : nd.recycled ≤ 1 :=
+  (run_good ops hc).recycled_once hn
+
+/-- `Cov` holds along a history with a Slice reader kept across the parent's Close, an Append, a MallocAck, a non-splitting
+WriteDirect – and blocks do get freed on it -/
+def covOps : List Op :=
+  [.new 0 16, .mal 0 40, .flush 0, .slice 0 30 1, .next 1 10, .close 0, .new 2 8, .mal 2 20, .ack 2 5, .wdir 2 9 9 0, .flush 2,
+   .new 3 0, .wbin 3 5000 5000, .flush 3, .app 2 3, .flush 2, .read 2 100, .rel 2, .rel 1, .close 1, .close 2]
+
+example : AllSteps { linkBufferCap := 16 } Cov {} covOps := allStepsB_sound (fun _ _ => covB_sound) _ _ (by decide)
+example : ((run { linkBufferCap := 16 } {} covOps).mem.blocks.map (·.frees)) = [1, 1, 1, 1, 0, 0, 0] := by decide
+
+/-- the concrete history of known finding D4 (corpus/C03/d04-writedirect-split-slice.ops, `seq 315 16`) -/
+def d4cfg : Cfg := { linkBufferCap := 16 }
+def d4ops : List Op := [.new 1 30, .mal 1 33, .wdir 1 33 33 13, .flush 1, .slice 1 17 4, .close 1]
+
+/-- **D4 witness** (negation of the unrestricted `C03_free_after_release`): after the history `d4ops` a block
+has been returned to the pool (`close 1` frees block 1 through the managed tail node of the WriteDirect split)
+while a node of the still open Slice reader 4 refers to it. -/
+theorem C03_D4_witness : ¬ ∀ ops : List Op, (run d4cfg {} ops).noDangling = true := by
+  intro h
+  exact absurd (h d4ops) (by decide)
+
 end Netpoll.Props.C03
